@@ -28,6 +28,7 @@ Definition enc_tr (x : tr) : list T :=
   | TLen n => [Tl [Tn 10; Tnat n]]
   | TLate => [Tl [Tn 11]]
   | TEarly => [Tl [Tn 12]]
+  | TChildStop c => [Tl [Tn 13; enc_c c]]
   end.
 
 Definition enc_trace (l : list tr) : T := Tl (flat_map enc_tr l).
